@@ -379,6 +379,9 @@ func init() {
 			b.WriteString("(* looksLikeJUnitXMLTestResults: bytes.HasPrefix alternatives *)\n")
 			b.WriteString("Definition junit_prefixes : list (list N) := [" + strings.Join(alts, "; ") + "]%N.\n")
 		}
+		// --- follow-up 2: the statements of parseTestResults / parseTestResultDatum (src/test/results.go) and the
+		// guards of cacheOutputFiles / needToRun (src/test/test_step.go), translated statement by statement
+		b.WriteString(c26flow())
 		return b.String()
 	}
 }
@@ -491,4 +494,232 @@ func c26match(f *ast.File) string {
 	}
 	return "(* findMatchingTestCase: nm = (o.Name == c.Name), cl = (o.ClassName == c.ClassName); TestSuite.Add and the search loop\n" +
 		"   were matched literally *)\n" + c26def("match_case", "(nm cl : bool)", cond(is.Cond))
+}
+
+// ------------------------------------------------------------------------------------------------
+// follow-up 2: statement-level translation of
+//   parseTestResults      (the body of the loop over the result files)            -> Gen.results_step
+//   parseTestResultDatum  (the if / else-if / else chain)                          -> Gen.datum_route
+//   cacheOutputFiles      (the leading `if COND { log...; return false }` guards)  -> Gen.cache_refused
+//   needToRun             (the leading `if COND { return true }` guards)           -> Gen.need_run_forced
+// Each statement is translated, in source order, into one layer of the generated Gallina term; a statement outside
+// the small grammar below fails closed.
+
+func c26isLenZero(x ast.Expr, v string) bool { return c26src(x) == "len("+v+")==0" }
+
+// the body of `for _, datum := range data` in parseTestResults, as a Gallina term over acc / d
+func c26resultsStep(fd *ast.FuncDecl) string {
+	if len(fd.Type.Params.List) != 1 || len(fd.Type.Params.List[0].Names) != 1 || len(fd.Body.List) != 3 {
+		failShape("C26Counters: parseTestResults: unexpected signature or body (want init; loop; return)")
+	}
+	data := fd.Type.Params.List[0].Names[0].Name
+	as, ok := fd.Body.List[0].(*ast.AssignStmt)
+	if !ok || as.Tok != token.DEFINE || len(as.Lhs) != 1 || c26src(as.Rhs[0]) != "core.TestSuite{}" {
+		failShape("C26Counters: parseTestResults: first statement is not `suite := core.TestSuite{}`")
+	}
+	acc := as.Lhs[0].(*ast.Ident).Name
+	rs, ok := fd.Body.List[1].(*ast.RangeStmt)
+	if !ok || rs.Value == nil || !c26isIdent("_")(rs.Key) || !c26isIdent(data)(rs.X) || rs.Tok != token.DEFINE {
+		failShape("C26Counters: parseTestResults: not `for _, datum := range data`")
+	}
+	if c26src(fd.Body.List[2]) != "return"+acc+",nil" {
+		failShape("C26Counters: parseTestResults: does not end in `return suite, nil`")
+	}
+	v := rs.Value.(*ast.Ident).Name
+	var tr func(sts []ast.Stmt, parsed string) string
+	tr = func(sts []ast.Stmt, parsed string) string {
+		if len(sts) == 0 {
+			failShape("C26Counters: parseTestResults: the loop body ends without collapsing the parsed suite")
+		}
+		switch st := sts[0].(type) {
+		case *ast.IfStmt:
+			// a guard on the raw bytes before / after the parse
+			if st.Init == nil && st.Else == nil && c26isLenZero(st.Cond, v) && len(st.Body.List) == 1 {
+				switch c26src(st.Body.List[0]) {
+				case "continue":
+					return "if empty d then Some acc else " + tr(sts[1:], parsed)
+				case "break":
+					failShape("C26Counters: parseTestResults: `break` on an empty file is not modelled")
+				}
+				if ret, ok := st.Body.List[0].(*ast.ReturnStmt); ok && len(ret.Results) == 2 && c26isIdent(acc)(ret.Results[0]) && !c26isNil(ret.Results[1]) {
+					return "if empty d then None else " + tr(sts[1:], parsed)
+				}
+			}
+		case *ast.AssignStmt:
+			// newSuite, err := parseTestResultDatum(datum); if err != nil { return suite, err }
+			if st.Tok == token.DEFINE && len(st.Lhs) == 2 && len(st.Rhs) == 1 && parsed == "" &&
+				c26src(st.Rhs[0]) == "parseTestResultDatum("+v+")" && len(sts) >= 2 {
+				ns, errv := st.Lhs[0].(*ast.Ident).Name, st.Lhs[1].(*ast.Ident).Name
+				if c26src(sts[1]) == "if"+errv+"!=nil{return"+acc+","+errv+"}" {
+					return "match parse d with None => None | Some x => " + tr(sts[2:], ns) + " end"
+				}
+			}
+		case *ast.ExprStmt:
+			if parsed != "" && c26src(st) == acc+".Collapse("+parsed+")" && len(sts) == 1 {
+				return "Some (collapse acc x)"
+			}
+		}
+		failShape("C26Counters: parseTestResults: statement `%s` of the loop body is not in the recognised fragment", c26src(sts[0]))
+		return ""
+	}
+	return tr(rs.Body.List, "")
+}
+
+// parseTestResultDatum: if len(data) == 0 {error} else if looksLikeJUnitXMLTestResults(data) {xml} else {go}
+func c26datumRoute(fd *ast.FuncDecl) string {
+	if len(fd.Type.Params.List) != 1 || len(fd.Type.Params.List[0].Names) != 1 || len(fd.Body.List) != 1 {
+		failShape("C26Counters: parseTestResultDatum: unexpected signature or body (want one if-chain)")
+	}
+	data := fd.Type.Params.List[0].Names[0].Name
+	branch := func(b *ast.BlockStmt) string {
+		src := c26src(b)
+		switch {
+		case strings.HasPrefix(src, "{returncore.TestSuite{},fmt.Errorf(") && len(b.List) == 1:
+			return "no_results"
+		case src == "{testSuites,err:=parseJUnitXMLTestResults("+data+")testSuite:=core.TestSuite{}for_,suite:=rangetestSuites.TestSuites{testSuite.Collapse(suite)}returntestSuite,err}":
+			return "xml"
+		case src == "{returnparseGoTestResults("+data+")}":
+			return "gotest"
+		}
+		failShape("C26Counters: parseTestResultDatum: branch %s not recognised", src)
+		return ""
+	}
+	var chain func(st ast.Stmt) string
+	chain = func(st ast.Stmt) string {
+		switch x := st.(type) {
+		case *ast.IfStmt:
+			if x.Init != nil || x.Else == nil {
+				failShape("C26Counters: parseTestResultDatum: if without else in the chain")
+			}
+			cond := ""
+			switch {
+			case c26isLenZero(x.Cond, data):
+				cond = "empty"
+			case c26src(x.Cond) == "looksLikeJUnitXMLTestResults("+data+")":
+				cond = "junit"
+			default:
+				failShape("C26Counters: parseTestResultDatum: condition %s not recognised", c26src(x.Cond))
+			}
+			return "if " + cond + " then " + branch(x.Body) + " else " + chain(x.Else)
+		case *ast.BlockStmt:
+			return branch(x)
+		}
+		failShape("C26Counters: parseTestResultDatum: not an if / else-if / else chain")
+		return ""
+	}
+	return chain(fd.Body.List[0])
+}
+
+// the function literal bound by `name := func(...) ... { ... }` directly in the body of fd
+func c26closure(fd *ast.FuncDecl, name string) *ast.FuncLit {
+	for _, st := range fd.Body.List {
+		as, ok := st.(*ast.AssignStmt)
+		if !ok || as.Tok != token.DEFINE || len(as.Lhs) != 1 || len(as.Rhs) != 1 || !c26isIdent(name)(as.Lhs[0]) {
+			continue
+		}
+		if fl, ok := as.Rhs[0].(*ast.FuncLit); ok {
+			return fl
+		}
+	}
+	failShape("C26Counters: test(): closure %s not found", name)
+	return nil
+}
+
+// the leading guards `if COND { [log.X(...);] return <ret> }` of a closure, as a disjunction over the atoms
+func c26guards(what string, fl *ast.FuncLit, ret string, atoms map[string]string, min int) string {
+	conds := []string{}
+	var expr func(x ast.Expr) string
+	expr = func(x ast.Expr) string {
+		switch e := x.(type) {
+		case *ast.ParenExpr:
+			return expr(e.X)
+		case *ast.UnaryExpr:
+			if e.Op == token.NOT {
+				return "(negb " + expr(e.X) + ")"
+			}
+		case *ast.BinaryExpr:
+			if e.Op == token.LAND {
+				return "(" + expr(e.X) + " && " + expr(e.Y) + ")"
+			}
+			if e.Op == token.LOR {
+				return "(" + expr(e.X) + " || " + expr(e.Y) + ")"
+			}
+		}
+		if a, ok := atoms[c26src(x)]; ok {
+			return a
+		}
+		failShape("C26Counters: %s: guard condition %s is not over the recognised atoms", what, c26src(x))
+		return ""
+	}
+	for _, st := range fl.Body.List {
+		is, ok := st.(*ast.IfStmt)
+		if !ok || is.Init != nil || is.Else != nil || len(is.Body.List) == 0 {
+			break
+		}
+		last := is.Body.List[len(is.Body.List)-1]
+		if c26src(last) != "return"+ret {
+			break
+		}
+		for _, pre := range is.Body.List[:len(is.Body.List)-1] {
+			if !strings.HasPrefix(c26src(pre), "log.") {
+				failShape("C26Counters: %s: guard body contains %s", what, c26src(pre))
+			}
+		}
+		conds = append(conds, expr(is.Cond))
+	}
+	if len(conds) < min {
+		failShape("C26Counters: %s: found %d leading guards returning %s, expected at least %d", what, len(conds), ret, min)
+	}
+	// every later `return <ret>` must be inside an error branch (cacheOutputFiles) or decided by hashes (needToRun):
+	// those are not guards on the arguments; a later mention of TestArgs would be
+	rest := fl.Body.List[len(conds):]
+	for _, st := range rest {
+		if strings.Contains(c26src(st), "TestArgs") {
+			failShape("C26Counters: %s: state.TestArgs is consulted after the leading guards", what)
+		}
+	}
+	return "(" + strings.Join(append(conds, "false"), " || ") + ")"
+}
+
+func c26flow() string {
+	var b strings.Builder
+	_, fr := parseFile("src/test/results.go")
+	b.WriteString("(* parseTestResults: the body of `for _, datum := range data`, statement by statement; acc = suite so far,\n" +
+		"   None = `return suite, err`, Some = the suite after this file; empty d = (len(datum) == 0) *)\n")
+	b.WriteString("Definition results_step {S D : Type} (empty : D -> bool) (parse : D -> option S) (collapse : S -> S -> S) (acc : S) (d : D) : option S :=\n  " +
+		c26resultsStep(findFunc(fr, "", "parseTestResults")) + ".\n")
+	b.WriteString("(* parseTestResultDatum: the if-chain; empty = (len(data) == 0), junit = looksLikeJUnitXMLTestResults(data) *)\n")
+	b.WriteString("Definition datum_route {A : Type} (empty junit : bool) (no_results xml gotest : A) : A :=\n  " +
+		c26datumRoute(findFunc(fr, "", "parseTestResultDatum")) + ".\n")
+	// parseTestResultsFile: data, err := readTestResultsDir(file); if err != nil {...}; return parseTestResults(data)
+	if got := c26src(findFunc(fr, "", "parseTestResultsFile").Body); got != "{data,err:=readTestResultsDir(file)iferr!=nil{returncore.TestSuite{},err}returnparseTestResults(data)}" {
+		failShape("C26Counters: parseTestResultsFile: body is %s", got)
+	}
+
+	_, ft := parseFile("src/test/test_step.go")
+	fd := findFunc(ft, "", "test")
+	b.WriteString("(* test(): cacheOutputFiles refuses to store the results when (leading `return false` guards);\n" +
+		"   has_args = (len(state.TestArgs) > 0), nfail = results.Failures() *)\n")
+	b.WriteString(c26def("cache_refused", "(has_args : bool) (nfail : nat)", c26guards("cacheOutputFiles", c26closure(fd, "cacheOutputFiles"), "false",
+		map[string]string{"len(state.TestArgs)>0": "has_args", "results.Failures()>0": "(Nat.ltb 0 nfail)", "results.Failures()!=0": "(negb (Nat.eqb nfail 0))"}, 1)))
+	b.WriteString("(* test(): needToRun runs the test without looking at stored results when (leading `return true` guards);\n" +
+		"   force = state.ForceRerun *)\n")
+	b.WriteString(c26def("need_run_forced", "(force has_args : bool)", c26guards("needToRun", c26closure(fd, "needToRun"), "true",
+		map[string]string{"state.ForceRerun": "force", "len(state.TestArgs)>0": "has_args"}, 1)))
+	// the two call sites: the stored results are consulted only when needToRun() is false, results are stored only
+	// after a report in which every case succeeded
+	src := c26src(fd.Body)
+	for _, want := range []string{
+		"ifstate.NumTestRuns==1&&!runRemotely&&!needToRun(){ifcachedResults:=cachedTestResults();cachedResults!=nil{target.Test.Results=cachedResultsreturn}}",
+		"iftarget.Test.Results.TestCases.AllSucceeded(){cacheOutputFiles(target.Test.Results,coverage,outs)}",
+		"iferr:=RemoveTestOutputs(target);err!=nil{",
+	} {
+		if strings.Count(src, want) != 1 {
+			failShape("C26Counters: test(): expected exactly one occurrence of %s", want)
+		}
+	}
+	if strings.Count(src, "cacheOutputFiles(") != 1 || strings.Count(src, "needToRun()") != 1 {
+		failShape("C26Counters: test(): cacheOutputFiles / needToRun are called from more than one place")
+	}
+	return b.String()
 }
